@@ -6,7 +6,7 @@ import os
 
 VERIF = os.path.dirname(os.path.dirname(os.path.abspath(__file__)))
 
-BASE_NOTE = ("Trusted: Coq 8.16.1 kernel (vm_compute for generated cases / FactsOK / refutation witnesses; no native_compute), "
+BASE_NOTE = ("Trusted: Coq 8.16.1 kernel (vm_compute for generated cases / Gen/Facts*.v obligations / refutation witnesses; no native_compute), "
              "the source-fact translator harness/srcfacts.py, the Python correspondence harness, and the oracles listed in DESIGN.md section 5. "
              "Every property theorem is 'Closed under the global context' (Print Assumptions output is parsed on every run). ")
 
@@ -25,7 +25,7 @@ CHECKS = {
 CHECKS["C05"] = dict(
     technique="Coq proof (simulation: write-through cache over a dictionary-like store refines the dictionary, for all histories/budgets) + differential execution of real backends against the dictionary spec inside Coq + AST source facts",
     text="Theorem cache_layer_refines_dict (Storage/LayerProofs.v): StorageBackendBase with a MemoryCache of any budget answers every operation of every history exactly as the dictionary keyed by (qualified name, arg hash), "
-         "instantiated with the facts extracted from the current source (FactsOK); prefix_scope makes f/f1 and #1/#10 safe. The filesystem (shared / separate metadata path, with / without cache) and memory backends are run on generated histories "
+         "instantiated with the facts extracted from the current source (Gen/Facts*.v); prefix_scope makes f/f1 and #1/#10 safe. The filesystem (shared / separate metadata path, with / without cache) and memory backends are run on generated histories "
          "and fixed scenarios; every answer, the cache's usage / resident set and store touches are compared with the model by vm_compute.",
     note="The data-source stack below the cache (directory tree emulation of versioned objects, metadata paths) is represented by its dictionary specification in the theorem and tied to the code by differential execution only. "
          "Hypothesis wfop: qualified names contain no '/'. Reads go through a freshly fetched memento, as the runner does.",
